@@ -1,6 +1,8 @@
 #!/bin/bash
 # run_seed.sh <seed-dir-name> <tier> <ID> [<ID>...] : apply seeded patch to /repo, run checks, always revert.
 seed=$1; tier=$2; shift 2
+# evidence of runs against a broken tree goes to a scratch directory, never to /verif/evidence
+export VERIF_EVIDENCE_DIR=/verif/replays/seed_evidence; mkdir -p $VERIF_EVIDENCE_DIR
 cd /repo && git diff --quiet || { echo "/repo not clean"; exit 2; }
 git -C /repo apply /verif/seeded/$seed/patch.diff || { echo "patch does not apply"; exit 2; }
 trap 'git -C /repo checkout -- .; git -C /repo clean -fdq avro/src avro_derive/src' EXIT
